@@ -106,6 +106,17 @@ func genPcall(r *rand.Rand, big bool) *pcall {
 	if sz > 100000 {
 		copy(p.payload[sz/2:], bytes.Repeat([]byte{'a'}, sz/4)) // partly compressible
 	}
+	switch r.Intn(12) {
+	case 0: // the payload is itself a complete gzip stream (a relay feeding a compressed stream back in)
+		var zb bytes.Buffer
+		zw := gzip.NewWriter(&zb)
+		_, _ = zw.Write(p.payload[:len(p.payload)%4096])
+		_ = zw.Close()
+		p.payload = zb.Bytes()
+	case 1: // ... or merely starts like one
+		hdr := []byte{0x1f, 0x8b, 0x08, 0, 0, 0, 0, 0, 0, 0xff}
+		p.payload = append(hdr, p.payload[:len(p.payload)%2000]...)
+	}
 	p.paySnap = append([]byte{}, p.payload...)
 	return p
 }
@@ -225,6 +236,12 @@ func (p *pcall) ownerEditsHow(decodeInto bool) {
 		}
 		p.tag = p.msg.Tag
 		p.snapStr = append([]byte{}, p.msg.EventStream...)
+		p.snapOpt = optRender(p.msg.Options)
+	case p.msg != nil && p.msg.Options != nil && len(p.msg.EventStream)%3 == 0:
+		// the exported decoder of the options object, called on the options of a message the caller owns
+		if _, err := p.msg.Options.UnmarshalMsg([]byte{0x82, 0xa4, 's', 'i', 'z', 'e', 0xcd, 0x03, 0xe8, 0xa5, 'c', 'h', 'u', 'n', 'k', 0xa5, 'o', 'w', 'n', 'e', 'd'}); err != nil {
+			return
+		}
 		p.snapOpt = optRender(p.msg.Options)
 	case p.msg != nil:
 		for i := range p.msg.EventStream {
@@ -517,6 +534,8 @@ func C07(c *core.Ctx) {
 	//     connection receives for a send is that message's encoding -- one sender's message is not altered by another's
 	for _, workers := range []int{2, 6} {
 		cl, f := liveClient(false)
+		_ = cl.SendMessage("bad", unencodableRecord(10, 0)) // an earlier failed send: whatever it left in a pool is shared by nobody
+		_ = cl.SendMessage("bad", unencodableRecord(3000, 1))
 		want := map[string]int{}
 		var wg sync.WaitGroup
 		var mu sync.Mutex
